@@ -17,7 +17,12 @@ Conforms(in, obs) ==
   /\ "panic" \notin DOMAIN obs
   /\ IF in.mode = "single"
      THEN LET r == SingleExecRun(in.tree, CfgOf(in), in.roots, in.pre, in.template, in.execdir, in.script, in.nocmd) IN
-          obs.execs = r.execs /\ obs.truth = r.truth /\ obs.exit = r.exit
+          /\ obs.execs = r.execs /\ obs.truth = r.truth /\ obs.exit = r.exit
+          \* "at that point of the evaluation": on the output the command shares with find, its mark (X) stands between
+          \* what find printed before the action (B) and after it (T / F), entry by entry
+          /\ ("tags" \in DOMAIN obs =>
+                obs.tags = Flatten([k \in DOMAIN r.truth |->
+                              <<"B">> \o (IF in.nocmd THEN <<>> ELSE <<"X">>) \o <<IF r.truth[k][1] THEN "T" ELSE "F">>]))
      ELSE /\ MultiExecOK(in.tree, CfgOf(in), in.roots, in.pre, in.fixed, in.execdir, in.script, in.quit, in.two, obs.execs, obs.exit)
           /\ MultiTruthOK(in.tree, CfgOf(in), in.roots, in.pre, in.quit, obs.truthn, IF "truth" \in DOMAIN obs THEN obs.truth ELSE <<>>, "truth" \in DOMAIN obs)
 
